@@ -58,7 +58,7 @@ Definition node_name (e : xnode) : text := match e with XElt _ n _ _ _ => n | XO
 (* ------------------------------------------------------------------ the documents of the agreement theorem *)
 Section Doc.
   Variable U : univ.
-  (** which leaf contents are admitted: (type, nillable of the member, default text of the
+  (** which leaf contents are allowed: (type, nillable of the member, default text of the
       member, text of the element or attribute) *)
   Variable LA : stype -> bool -> option text -> option text -> bool.
 
@@ -90,7 +90,7 @@ Section Doc.
     && Nat.leb (length (filter is_xsi atts)) 1.
 
   (** unqualified attributes named after XmlAttribute members, each at most once, with
-      admitted values *)
+      allowed values *)
   Definition atts_doc (fields : list fld) (atts : list attr) : bool :=
     forallb (fun a : attr =>
                let '(ns, n, v) := a in
